@@ -63,7 +63,7 @@ func RunStream(c *vh.Ctx, cfg Config) {
 		}
 		c.Eval()
 		for _, v := range e.Viol {
-			c.Violation(v.Sig, v.Msg, map[string]any{"index": i, "stream": cfg.Stream, "profile": prof, "steps": e.Log, "trace": e.TraceTail(80)})
+			c.Violation(v.Sig, v.Msg, map[string]any{"index": i, "stream": cfg.Stream, "profile": prof, "steps": e.Log, "trace": e.TraceTail(600)})
 		}
 		for k, v := range e.Counts {
 			c.Count(k, v)
